@@ -2,7 +2,7 @@
 C09 — property theorems about reading a saved text back through `loadManifest` (`C10.fsLoad`).
 -/
 import ArvVerif.Proofs.C09_Marker
-import ArvVerif.Proofs.C09_Reload
+import ArvVerif.Proofs.C09_Mixed2
 import ArvVerif.Props.C09
 namespace ArvVerif.C09
 
@@ -28,48 +28,39 @@ theorem C09_marker_line_loads (path : List Bytes) (hpath : PathOK path) (t : C10
 example : (C10.fsLine (joinWith bSpace [fsEscape (prefixOf [[100], [101]]), emptyLoc, markerTok]) ⟨[], [([[97]], [])]⟩).map
     (fun t' => (t'.dirs, t'.files)) = some ([[[100]], [[100], [101]]], [([[97]], [])]) := by decide +kernel
 
-/-- **The whole saved text through `loadManifest`** (`_partial`: trees without empty directories
-below the root, i.e. texts without marker lines — a marker line on its own is
-`C09_marker_line_loads`, their mixture is checked differentially). After a successful save of a closed
-tree in which no file has the path of a directory and whose saved sizes the loader can represent:
-`loadManifest` accepts the text; the loaded tree has, for every file of the saved tree, a file with
-exactly that key whose stored segments read exactly the file's bytes, has no other file, and every
-directory it created is a directory of the tree. -/
-theorem C09_marshal_fsLoad_partial (hh : HashOK hash) {k : Keep} {t : Tree9} (hok : SaveOK max hash k t) (hnd : NoDel t)
+/-- **`loadManifest` on any text of the C09 grammar** (streams of the published grammar mixed with
+empty-directory markers, any spelling of the names the grammar allows): if the loader can represent
+the sizes, no path is both file and directory, and no file path is a marker directory or an ancestor
+of one, then `loadManifest` accepts the text and builds exactly what it builds for the text WITHOUT the
+marker lines (for which `C10_fs_agrees` / `FsInv` say: the files are the manifest's paths, each with
+`resolve`'s segments) plus the marker directories and their ancestors — same files, same segments. -/
+theorem C09_loader_reads_markers (txt : Bytes) (L : List Line9) (hvalid : parse9 txt = some L)
+    (hfit : ∀ s ∈ streamsOf L, C10.FitsFs s) (htree : C10.TreeConsistent (streamsOf L))
+    (hmark : ∀ p ∈ C10.pathsOf (streamsOf L), ∀ n ∈ markersOf L, p ≠ n ∧ C10.isDirPrefix p n = false) :
+    ∃ tr tr1, C10.fsLoad txt = some tr ∧ C10.FsInv (C10.manifestContribs (streamsOf L)) tr1 ∧
+      tr.files = tr1.files ∧ ∀ d, d ∈ tr.dirs ↔ (d ∈ tr1.dirs ∨ d ∈ markerDirs L) :=
+  fsLoad_mixed txt L hvalid hfit htree hmark
+
+/-- **The whole saved text through `loadManifest`.** After a successful save of a closed tree in which
+no file has the path of a directory and whose saved sizes the loader can represent: `loadManifest`
+accepts the text (marker lines included); the loaded tree has, for every file of the saved tree, a
+file with exactly that key whose stored segments read exactly the file's bytes, and no other file;
+every directory it created is a directory of the tree; and every empty directory of the tree (below
+the root) exists in it. -/
+theorem C09_marshal_fsLoad (hh : HashOK hash) {k : Keep} {t : Tree9} (hok : SaveOK max hash k t) (hnd : NoDel t)
     (hclosed : TreeClosed t) (hclash : ∀ d ∈ t, ∀ f ∈ d.files, d.path ++ [f.1] ∉ dirPaths t)
-    (hnoempty : ∀ d ∈ t, d.isEmpty = true → d.path = [])
     {txt : Bytes} (h : (marshal9 hash max k t).2.2 = MRes.ok txt)
     (hfit : ∀ L, parse9 txt = some L → ∀ s ∈ streamsOf L, C10.FitsFs s) :
     ∃ tr, C10.fsLoad txt = some tr ∧
       (∀ d ∈ (marshal9 hash max k t).2.1, ∀ f ∈ d.files, ∃ e ∈ tr.files, e.1 = d.path ++ [f.1] ∧
         C10.segBytes (blkOf (marshal9 hash max k t).1.store) e.2 = C08.abs (marshal9 hash max k t).1.store f.2) ∧
       (∀ e ∈ tr.files, ∃ d ∈ (marshal9 hash max k t).2.1, ∃ f ∈ d.files, e.1 = d.path ++ [f.1]) ∧
-      (∀ p ∈ tr.dirs, p ∈ dirPaths t) := by
+      (∀ p ∈ tr.dirs, p ∈ dirPaths t) ∧
+      (∀ d ∈ (marshal9 hash max k t).2.1, d.isEmpty = true → d.path ≠ [] → d.path ∈ tr.dirs) := by
   obtain ⟨r1, r2, r3, _, _, r6⟩ := marshal9_run (max := max) hh hok
   obtain ⟨_, L, h1, h2⟩ := C09_marshal_valid hh hok hnd h
   obtain ⟨_, a2, _, a4⟩ := TreeKept.abs_eq r3 r2.ext hok.wf
   have hshape := TreeKept.shape r3
-  -- no marker line
-  have hm : markersOf L = [] := by
-    rw [treeLines_markers _ L h1]
-    have : ((marshal9 hash max k t).2.1.filter fun d => d.isEmpty && !d.path.isEmpty) = [] := by
-      rw [List.filter_eq_nil_iff]
-      intro d' hd'
-      obtain ⟨d, hd, e1, e2, e3⟩ := hshape d' hd'
-      have hie : d'.isEmpty = d.isEmpty := by
-        unfold Dir9.isEmpty
-        rw [e2]
-        have : d'.files.isEmpty = d.files.isEmpty := by
-          have hl := congrArg List.length e3
-          simp only [List.length_map] at hl
-          cases hf' : d'.files <;> cases hf : d.files <;> simp_all
-        rw [this]
-      by_cases he : d.isEmpty = true
-      · have := hnoempty d hd he
-        simp [hie, he, e1, this]
-      · simp [hie, he]
-    rw [this]; rfl
-  have hspec := parseSpec_of_parse9 txt L h2 hm
   -- the paths of the text are the file paths of the tree
   have hnoslash : ∀ d ∈ (marshal9 hash max k t).2.1, (∀ c ∈ d.path, bSlash ∉ c) ∧ ∀ f ∈ d.files, bSlash ∉ f.1 :=
     r1.shape.noslash
@@ -133,7 +124,37 @@ theorem C09_marshal_fsLoad_partial (hh : HashOK hash) {k : Keep} {t : Tree9} (ho
       have hin : d1.path ++ [f1.1] ++ (x :: rest).dropLast ∈ dirPaths (marshal9 hash max k t).2.1 := by
         rw [← hdrop]; exact List.mem_map.mpr ⟨d2, hd2, rfl⟩
       exact hclash' d1 hd1 f1 hf1 (hclosed'.prefixes _ _ hin)
-  obtain ⟨tr, hload, hinv⟩ := fsLoad_inv txt (streamsOf L) hspec (hfit L h2) htree
+  -- the markers are directories of the tree
+  have hmarkers : ∀ n ∈ markersOf L, ∃ d ∈ (marshal9 hash max k t).2.1, n = prefixOf d.path ∧ d.isEmpty = true ∧ d.path ≠ [] := by
+    intro n hn
+    rw [treeLines_markers _ L h1] at hn
+    obtain ⟨d, hd, rfl⟩ := List.mem_map.mp hn
+    obtain ⟨hd1, hd2⟩ := List.mem_filter.mp hd
+    simp only [Bool.and_eq_true, Bool.not_eq_true', List.isEmpty_eq_false_iff] at hd2
+    exact ⟨d, hd1, rfl, hd2.1, hd2.2⟩
+  have hmark : ∀ p ∈ C10.pathsOf (streamsOf L), ∀ n ∈ markersOf L, p ≠ n ∧ C10.isDirPrefix p n = false := by
+    intro p hp n hn
+    obtain ⟨d1, hd1, f1, hf1, rfl⟩ := hpaths p hp
+    obtain ⟨d2, hd2, rfl, _, _⟩ := hmarkers n hn
+    have hs1 : ∀ c ∈ d1.path ++ [f1.1], bSlash ∉ c := by
+      intro c hc; rcases List.mem_append.mp hc with hc | hc
+      · exact (hnoslash d1 hd1).1 c hc
+      · simp at hc; subst hc; exact (hnoslash d1 hd1).2 f1 hf1
+    constructor
+    · intro heq
+      have e1 := splitOn_prefixOf _ hs1
+      rw [heq, splitOn_prefixOf _ (hnoslash d2 hd2).1] at e1
+      have : d2.path = d1.path ++ [f1.1] := (List.cons.inj e1).2
+      exact hclash' d1 hd1 f1 hf1 (by rw [← this]; exact List.mem_map.mpr ⟨d2, hd2, rfl⟩)
+    · cases hpre : C10.isDirPrefix (prefixOf (d1.path ++ [f1.1])) (prefixOf d2.path) with
+      | false => rfl
+      | true =>
+        exfalso
+        obtain ⟨x, rest, hxr⟩ := isDirPrefix_comps hs1 (hnoslash d2 hd2).1 hpre
+        have hin : d1.path ++ [f1.1] ++ (x :: rest) ∈ dirPaths (marshal9 hash max k t).2.1 := by
+          rw [← hxr]; exact List.mem_map.mpr ⟨d2, hd2, rfl⟩
+        exact hclash' d1 hd1 f1 hf1 (hclosed'.prefixes _ _ hin)
+  obtain ⟨tr, tr1, hload, hinv, hfiles, hdirs⟩ := fsLoad_mixed txt L h2 (hfit L h2) htree hmark
   have hblk : ∀ s ∈ streamsOf L, ∀ b ∈ s.blocks, (blkOf (marshal9 hash max k t).1.store b.text).length = b.size := by
     intro s hs b hb
     obtain ⟨d, hd, _, e, hem, rfl⟩ := treeLines_streams _ L h1 s hs
@@ -187,10 +208,11 @@ theorem C09_marshal_fsLoad_partial (hh : HashOK hash) {k : Keep} {t : Tree9} (ho
     exact ⟨s, hs, List.mem_map.mpr ⟨ft, hft, rfl⟩⟩
   have hfilekey : ∀ e ∈ tr.files, ∃ d ∈ (marshal9 hash max k t).2.1, ∃ f ∈ d.files, e.1 = d.path ++ [f.1] := by
     intro e he
+    rw [hfiles] at he
     obtain ⟨hko, hin, _⟩ := hinv.files e he
     obtain ⟨d, hd, f, hf, hq⟩ := hdone _ hin
     exact ⟨d, hd, f, hf, C10.pathOfKey_inj hko (hkeyok d hd f hf) hq⟩
-  refine ⟨tr, hload, ?_, hfilekey, ?_⟩
+  refine ⟨tr, hload, ?_, hfilekey, ?_, ?_⟩
   · intro d hd f hf
     obtain ⟨e, hem, hs, p, hp, hpn⟩ := file_has_token h1 hd hf
     have hc : (C10.pathOf (prefixOf d.path) f.1, C10.resolveTok (streamOfEmit d.path e).blocks 0 p.off p.len) ∈
@@ -205,34 +227,71 @@ theorem C09_marshal_fsLoad_partial (hh : HashOK hash) {k : Keep} {t : Tree9} (ho
     have hkey : ent.1 = d.path ++ [f.1] := by
       apply C10.pathOfKey_inj hko (hkeyok d hd f hf)
       rw [hpe]; exact pathOf_prefixOf d.path f.1
-    refine ⟨ent, hent, hkey, ?_⟩
+    refine ⟨ent, by rw [hfiles]; exact hent, hkey, ?_⟩
     rw [hseg, C10.contribOf_manifest, C10.resolve_bytes _ _ _ hblk, hpe]
     exact treeLines_content (max := max) (hash := hash) _ L r1.shape
       (fun d hd f hf => r1.wf d hd f.2 (List.mem_map.mpr ⟨f, hf, rfl⟩)) h1 d hd f hf
   · intro p hp
-    obtain ⟨_, e, he, x, rest, hxr⟩ := hinv.dirs p hp
-    obtain ⟨d, hd, f, hf, hk⟩ := hfilekey e he
     rw [← a2]
-    have hdrop : d.path = p ++ (x :: rest).dropLast := by
-      have := congrArg List.dropLast (hk.symm.trans hxr)
-      rw [List.dropLast_concat, List.dropLast_append_of_ne_nil (by simp)] at this
-      exact this
-    apply hclosed'.prefixes ((x :: rest).dropLast) p
-    rw [← hdrop]
-    exact List.mem_map.mpr ⟨d, hd, rfl⟩
+    rcases (hdirs p).mp hp with hp1 | hp2
+    · obtain ⟨_, e, he, x, rest, hxr⟩ := hinv.dirs p hp1
+      obtain ⟨d, hd, f, hf, hk⟩ := hfilekey e (by rw [hfiles]; exact he)
+      have hdrop : d.path = p ++ (x :: rest).dropLast := by
+        have := congrArg List.dropLast (hk.symm.trans hxr)
+        rw [List.dropLast_concat, List.dropLast_append_of_ne_nil (by simp)] at this
+        exact this
+      apply hclosed'.prefixes ((x :: rest).dropLast) p
+      rw [← hdrop]
+      exact List.mem_map.mpr ⟨d, hd, rfl⟩
+    · obtain ⟨n, hn, hk⟩ := mem_markerDirs L p hp2
+      obtain ⟨d, hd, rfl, _, _⟩ := hmarkers n hn
+      have hcomps : compsOfName (prefixOf d.path) = d.path := by
+        unfold compsOfName; rw [splitOn_prefixOf _ (hnoslash d hd).1]; rfl
+      rw [hcomps] at hk
+      obtain ⟨_, q, hq⟩ := mem_dirPrefixes.mp hk
+      apply hclosed'.prefixes q p
+      rw [hq]
+      exact List.mem_map.mpr ⟨d, hd, rfl⟩
+  · intro d hd he hne
+    apply (hdirs d.path).mpr
+    right
+    -- its marker is a line of the text
+    have hn : prefixOf d.path ∈ markersOf L := by
+      rw [treeLines_markers _ L h1]
+      exact List.mem_map.mpr ⟨d, List.mem_filter.mpr ⟨hd, by simp [he, hne]⟩, rfl⟩
+    have hcomps : compsOfName (prefixOf d.path) = d.path := by
+      unfold compsOfName; rw [splitOn_prefixOf _ (hnoslash d hd).1]; rfl
+    have : ∀ (L' : List Line9) (n : Bytes), n ∈ markersOf L' → ∀ k ∈ dirPrefixes (compsOfName n), k ∈ markerDirs L' := by
+      intro L'
+      induction L' with
+      | nil => intro n hn; cases hn
+      | cons x xs ih =>
+        intro n hn k hk
+        cases x with
+        | stream s => simp only [markersOf] at hn; simp only [markerDirs]; exact ih n hn k hk
+        | marker m =>
+          simp only [markersOf, List.mem_cons] at hn
+          simp only [markerDirs, List.mem_append]
+          rcases hn with rfl | hn
+          · exact Or.inl hk
+          · exact Or.inr (ih n hn k hk)
+    apply this L _ hn
+    rw [hcomps]
+    exact mem_dirPrefixes.mpr ⟨hne, List.prefix_refl _⟩
 
-/-! ### non-vacuity of `C09_marshal_fsLoad_partial` -/
+/-! ### non-vacuity of `C09_marshal_fsLoad` (and, through it, of `C09_loader_reads_markers`) -/
 
-/-- root file `a` (two buffered segments), directory `d` holding the empty file `x y`; no empty directory -/
+/-- root file `a` (two buffered segments), directory `d` holding the empty file `x y` and the empty directory `e` -/
 def exTree2 : Tree9 :=
   [⟨[], [([97], ⟨[Seg.mem [1, 2, 3] C08.Flush.none, Seg.mem [4] C08.Flush.none], 4, 0⟩)], 1⟩,
-   ⟨[[100]], [([120, 32, 121], FileNode.empty)], 0⟩]
+   ⟨[[100]], [([120, 32, 121], FileNode.empty)], 1⟩,
+   ⟨[[100], [101]], [], 0⟩]
 
 example : SaveOK 4 exHash exKeep0 exTree2 := by
   refine ⟨⟨fun l b h => (by cases h), fun b hb => (by cases hb)⟩, ?_, by decide, ?_, ?_, ?_, ?_⟩
   · intro d hd fn hfn s hs
     simp only [exTree2, List.mem_cons, List.not_mem_nil, or_false] at hd
-    rcases hd with rfl | rfl
+    rcases hd with rfl | rfl | rfl
     · simp only [List.map_cons, List.map_nil, List.mem_singleton] at hfn
       subst hfn
       simp only [List.mem_cons, List.not_mem_nil, or_false] at hs
@@ -241,49 +300,61 @@ example : SaveOK 4 exHash exKeep0 exTree2 := by
       · exact ⟨by decide, by decide, fun i l h => (by cases h)⟩
     · simp only [List.map_cons, List.map_nil, List.mem_singleton] at hfn
       subst hfn; cases hs
+    · cases hfn
   · intro d hd
     simp only [exTree2, List.mem_cons, List.not_mem_nil, or_false] at hd
-    rcases hd with rfl | rfl <;> decide
+    rcases hd with rfl | rfl | rfl <;> decide
   · intro d hd c hc
     simp only [exTree2, List.mem_cons, List.not_mem_nil, or_false] at hd
-    rcases hd with rfl | rfl
+    rcases hd with rfl | rfl | rfl
     · cases hc
     · simp only [List.mem_singleton] at hc; subst hc; exact ⟨by decide, by decide, by decide, by decide⟩
+    · simp only [List.mem_cons, List.not_mem_nil, or_false] at hc
+      rcases hc with rfl | rfl <;> exact ⟨by decide, by decide, by decide, by decide⟩
   · intro d hd f hf
     simp only [exTree2, List.mem_cons, List.not_mem_nil, or_false] at hd
-    rcases hd with rfl | rfl
+    rcases hd with rfl | rfl | rfl
     · simp only [List.mem_singleton] at hf; subst hf; exact ⟨by decide, by decide, by decide, by decide⟩
     · simp only [List.mem_singleton] at hf; subst hf; exact ⟨by decide, by decide, by decide, by decide⟩
+    · cases hf
   · intro d hd f hf loc size off len hs
     simp only [exTree2, List.mem_cons, List.not_mem_nil, or_false] at hd
-    rcases hd with rfl | rfl
+    rcases hd with rfl | rfl | rfl
     · simp only [List.mem_singleton] at hf; subst hf
       simp only [List.mem_cons, List.not_mem_nil, or_false] at hs
       rcases hs with hs | hs <;> cases hs
     · simp only [List.mem_singleton] at hf; subst hf; cases hs
+    · cases hf
 
 example : TreeClosed exTree2 := by
   constructor
   · intro d hd hne
     simp only [exTree2, List.mem_cons, List.not_mem_nil, or_false] at hd
-    rcases hd with rfl | rfl
+    rcases hd with rfl | rfl | rfl
     · exact absurd rfl hne
+    · decide
     · decide
   · intro d hd hsub
     simp only [exTree2, List.mem_cons, List.not_mem_nil, or_false] at hd
-    rcases hd with rfl | rfl
+    rcases hd with rfl | rfl | rfl
     · exact ⟨_, List.mem_cons_of_mem _ List.mem_cons_self, [100], rfl⟩
+    · exact ⟨_, List.mem_cons_of_mem _ (List.mem_cons_of_mem _ List.mem_cons_self), [101], rfl⟩
     · simp at hsub
 
 example : ∀ d ∈ exTree2, ∀ f ∈ d.files, d.path ++ [f.1] ∉ dirPaths exTree2 := by
   intro d hd f hf
   simp only [exTree2, List.mem_cons, List.not_mem_nil, or_false] at hd
-  rcases hd with rfl | rfl <;> (simp only [List.mem_singleton] at hf; subst hf; decide)
+  rcases hd with rfl | rfl | rfl
+  · simp only [List.mem_singleton] at hf; subst hf; decide
+  · simp only [List.mem_singleton] at hf; subst hf; decide
+  · cases hf
 
-example : ∀ d ∈ exTree2, d.isEmpty = true → d.path = [] := by
-  intro d hd he
-  simp only [exTree2, List.mem_cons, List.not_mem_nil, or_false] at hd
-  rcases hd with rfl | rfl <;> simp [Dir9.isEmpty] at he
+/-- the saved text has a marker line, and `loadManifest` reads it into the directory `d/e` -/
+example : (match (marshal9 exHash 4 exKeep0 exTree2).2.2 with
+    | MRes.ok txt => ((parse9 txt).map markersOf, (C10.fsLoad txt).map (fun tr => (tr.dirs, tr.files.map (·.1))))
+    | _ => (none, none)) =
+    (some [[46, 47, 100, 47, 101]], some ([[[100]], [[100], [101]]], [[[97]], [[100], [120, 32, 121]]])) := by
+  decide +kernel
 
 /-- the saved text of that tree parses and the loader can represent the sizes in it -/
 example : (match (marshal9 exHash 4 exKeep0 exTree2).2.2 with
